@@ -44,10 +44,14 @@ type asim struct {
 	conflict bool // an idle/expire termination fell within the margins of a user task\'s due time
 	anyStale bool
 	gterm    bool // a graceful OnTerminate is queued as a user message
+	// lostNext: earliest due time of a user task that was still pending when the actor terminated
+	// itself (idle deadline / expiry), -1 = none. The real actor terminates a little later than the
+	// ideal one; if it is later than this due time the task fires once more, legitimately.
+	lostNext int
 }
 
 func newAsim(idle, expire int) *asim {
-	s := &asim{table: map[int]*stask{}, live: true, idle: idle, expireAt: -1, lastFire: -1000, lastUser: -1000}
+	s := &asim{table: map[int]*stask{}, live: true, idle: idle, expireAt: -1, lastFire: -1000, lastUser: -1000, lostNext: -1}
 	if expire > 0 {
 		s.expireAt = expire
 		s.register(expireName, expire, tickMs, 1)
@@ -187,6 +191,11 @@ func (s *asim) settle() {
 	if s.gterm {
 		s.gterm = false
 		if s.live {
+			for _, u := range s.tasks {
+				if u.name < idleName && u.pending && !u.kill && (s.lostNext < 0 || u.e < s.lostNext) {
+					s.lostNext = u.e
+				}
+			}
 			s.idleStop()
 			s.idleStart()
 			s.idleStop()
